@@ -15,7 +15,7 @@ POS = {'it.codicefiscale_': (0, 0, 0, 0), 'be.nn': (0, 2, 2, 4), 'be.bis': (0, 2
        'cz.rc': (0, 2, 2, 4), 'sk.rc': (0, 2, 2, 4), 'dk.cpr': (4, 2, 2, 0), 'ee.ik': (1, 2, 3, 5), 'lt.asmens': (1, 2, 3, 5),
        'gr.amka': (4, 2, 2, 0), 'id.nik': (10, 2, 8, 6), 'kr.rrn': (0, 2, 2, 4), 'lv.pvn': (4, 2, 2, 0), 'mx.curp': (4, 2, 6, 8),
        'my.nric': (0, 2, 2, 4), 'no.fodselsnummer': (4, 2, 2, 0), 'pl.pesel': (0, 2, 2, 4), 'ro.cnp': (1, 2, 3, 5),
-       'si.emso': (4, 3, 2, 0), 'za.idnr': (0, 2, 2, 4), 'be.ssn': (0, 2, 2, 4)}
+       'si.emso': (4, 3, 2, 0), 'za.idnr': (0, 2, 2, 4), 'be.ssn': (0, 2, 2, 4), 'se.personnummer': (0, 2, 2, 4)}
 DATES = [(1996, 2, 29), (2000, 2, 29), (1900, 2, 29), (2001, 2, 29), (1999, 12, 31), (2000, 1, 1), (1954, 3, 1), (1953, 12, 31),
          (1980, 4, 31), (1975, 0, 0), (1988, 13, 1), (2054, 1, 1), (1854, 5, 5), (1990, 6, 15)]
 
